@@ -297,6 +297,10 @@ type Scenario interface {
 	Check(c *Case, env *Env, res zzsim.Result, v *Verdict)
 }
 
+// JobSeed is VERIF_SEED as given to the worker (for generators that group
+// runs into blocks sharing a configuration).
+var JobSeed uint64
+
 var scenarios = map[string]func() Scenario{}
 
 // Register makes a scenario known.
